@@ -30,6 +30,13 @@ pub fn generate(seed: u64, index: u64, thorough: bool) -> Scenario {
     let noise = *rng.pick(&[0.0, 1e-3, 5e-2]);
     let (mut sc, d) = base_scenario(&mut rng, "C09", seed, index, kind, sizes, parallel, start, noise);
     sc.opt.patience = rng.usize_in(1, if thorough { 14 } else { 8 });
+    if parallel && rng.chance(0.3) {
+        // truly overlapped arms (shuttle): the schedule decides which column meets a failing derivative
+        sc.sched = gen_sched(&mut rng, true, true);
+        sc.sched.overlap = true;
+        sc.sched.pool = sc.sched.pool.max(2);
+        sc.sched.mix = [Fx(0.1), Fx(0.1), Fx(0.1), Fx(0.7)];
+    }
     // caller-driven prefix
     let pre = gen_script(
         &mut rng,
@@ -241,12 +248,73 @@ fn phase_of(sc: &Scenario, op: Option<usize>) -> &'static str {
 /// Execute one materialised scenario (production pass + tap twin) and apply the oracle.
 /// Returns the model-seam log of the production pass.
 fn run_once<T: Sc, F: Factory<T>>(sc: &Scenario, rep: &mut RunReport, sample: bool) -> Vec<Event> {
+    if !(sc.parallel && sc.sched.overlap) {
+        return run_once_inner::<T, F>(sc, rep, sample);
+    }
+    // overlap mode: the whole execution (both passes and the oracle's fresh problems) runs
+    // inside the shuttle runtime, so that stolen arms of the parallel Jacobian truly overlap
+    // and the column that meets the failing derivative is decided by shuttle's schedule
+    type Out = Arc<std::sync::Mutex<Option<(RunReport, Vec<Event>)>>>;
+    let out: Out = Arc::new(std::sync::Mutex::new(None));
+    let out2 = out.clone();
+    let scc = sc.clone();
+    let seed = sc.sched.shuttle_seed;
+    let mut cfg = shuttle::Config::new();
+    cfg.stack_size = 1 << 21;
+    cfg.failure_persistence = shuttle::FailurePersistence::None;
+    cfg.max_steps = shuttle::MaxSteps::FailAfter(5_000_000);
+    cfg.silence_warnings = true;
+    let res = guarded(move || {
+        let sch = shuttle::scheduler::RandomScheduler::new_from_seed(seed, 1);
+        shuttle::Runner::new(sch, cfg).run(move || {
+            let mut r = RunReport::default();
+            let log = run_once_inner::<T, F>(&scc, &mut r, sample);
+            *out2.lock().unwrap() = Some((r, log));
+        });
+    });
+    Exec::uninstall();
+    let taken = out.lock().unwrap().take();
+    match (res, taken) {
+        (Ok(()), Some((r, log))) => {
+            rep.executions += r.executions;
+            rep.events += r.events;
+            for (k, v) in r.probes {
+                *rep.probes.entry(k).or_insert(0) += v;
+            }
+            rep.probe("sched_runs_in_overlap_mode");
+            for sg in r.signatures {
+                if !rep.signatures.contains(&sg) {
+                    rep.signatures.push(sg);
+                }
+            }
+            rep.eat(r.digest);
+            for v in r.violations {
+                if !rep.violations.iter().any(|w| w.class == v.class && w.site == v.site) {
+                    rep.violations.push(v);
+                }
+            }
+            if rep.sample.is_none() {
+                rep.sample = r.sample;
+            }
+            log
+        }
+        (Err(p), _) => {
+            rep.executions += 1;
+            rep.violate(sc, "PANIC", &format!("overlap@{}", panic_site(&p)), p);
+            vec![]
+        }
+        _ => vec![],
+    }
+}
+
+fn run_once_inner<T: Sc, F: Factory<T>>(sc: &Scenario, rep: &mut RunReport, sample: bool) -> Vec<Event> {
     crate::ctl::set_current(sc);
     rep.executions += 1;
     // ---- production pass ----
     let exec = Exec::new(&sc.sched);
     exec.install();
     let ctl = Arc::new(Ctl::new(sc.faults.clone()));
+    ctl.set_overlap(sc.parallel && sc.sched.overlap);
     let mut r = Runner::<T, F>::start(sc, ctl.clone());
     r.run_ops(&sc.ops);
     let log = ctl.log();
@@ -261,6 +329,7 @@ fn run_once<T: Sc, F: Factory<T>>(sc: &Scenario, rep: &mut RunReport, sample: bo
         let exec2 = Exec::new(&sc.sched);
         exec2.install();
         let ctl2 = Arc::new(Ctl::new(sc.faults.clone()));
+        ctl2.set_overlap(sc.parallel && sc.sched.overlap);
         let mut r2 = Runner::<T, F>::start(sc, ctl2.clone());
         r2.tap = true;
         r2.run_ops(&sc.ops);
